@@ -4,6 +4,7 @@ import (
 	"encoding/json"
 	"fmt"
 	"os"
+	"path/filepath"
 	"sort"
 	"strings"
 	"testing"
@@ -62,7 +63,24 @@ func copyParams(p map[string]string) map[string]string {
 	return out
 }
 
+// c10InnerLink returns a link file of the deepest sublayout directory below dir ("" if there is none).
+func c10InnerLink(dir string) string {
+	best, depth := "", 0
+	_ = filepath.Walk(dir, func(p string, info os.FileInfo, err error) error {
+		if err != nil || info.IsDir() || !strings.HasSuffix(p, ".link") {
+			return nil
+		}
+		rel, _ := filepath.Rel(dir, p)
+		if d := strings.Count(rel, "/"); d > depth {
+			best, depth = p, d
+		}
+		return nil
+	})
+	return best
+}
+
 func c10Run(c c10Case, r *hx.Rec) error {
+	nestedHonest := false
 	r.Label("kind=%s", c.Kind)
 	if c.Kind == "direct" {
 		return c10Direct(c, r)
@@ -74,6 +92,7 @@ func c10Run(c c10Case, r *hx.Rec) error {
 		}
 		b := &c08Builder{c: c.Nested, tree: map[string]string{"seed.txt": "seed\n"}}
 		rootLay := b.buildLevel(c.Nested.Root, "", true)
+		nestedHonest = len(b.defects) == 0 && len(b.absorbed) == 0
 		w = hx.World{Entry: c.Nested.Entry, Links: b.links,
 			Layout:       hx.WMetaFile{Name: "root.layout", Wrapper: c.Nested.Wrapper, Meta: hx.MMeta{Layout: &rootLay}, Sigs: []hx.WSig{{Key: "ed25519-2"}}},
 			VerifierKeys: []hx.WKey{{Key: "ed25519-2"}}}
@@ -122,6 +141,26 @@ func c10Run(c c10Case, r *hx.Rec) error {
 	}
 	keys := b.VerifierKeyMap()
 	pems := b.IntermediatePEMs()
+	if c.Kind == "nested" && nestedHonest {
+		// a first attempt fails inside a sublayout (one of its links has not arrived yet); once the
+		// link is there, the same objects must verify: nothing of the failed attempt may linger
+		if victim := c10InnerLink(b.LinkDir); victim != "" {
+			_ = os.Rename(victim, victim+".late")
+			first := b.VerifyWith(md, keys, map[string]string{})
+			_ = os.Rename(victim+".late", victim)
+			if first.Panic != nil {
+				return fmt.Errorf("verification with a missing sublayout link panicked: %v", first.Panic)
+			}
+			// (the missing link may be one that the threshold can do without: then nothing failed)
+			if first.Rejected() {
+				second := b.VerifyWith(md, keys, map[string]string{})
+				if second.Rejected() {
+					return fmt.Errorf("after a failed attempt (a sublayout link was missing) the complete supply chain is rejected on the same objects: %s", second)
+				}
+				r.Label("retry-after-failed-sublayout")
+			}
+		}
+	}
 	nonEmptyParams := false
 	callerInters := b.W.Intermediates
 	verdictFor := map[string]string{} // equal arguments, equal verdict - whatever was verified in between
